@@ -1,7 +1,7 @@
 ---------------------------- MODULE Limits_Cases ----------------------------
 (* C08 case spaces (pure): limit records by value class, verdict programs, collector grid *)
 EXTENDS Limits
-CONSTANTS CollectN, SlowMax
+CONSTANTS CollectN, SlowMax, RecMaxDev
 
 P32 == <<0, 1, 0, 0>>                 \* 2^32
 Add(a, b) == \* limb-wise, no carries needed for the constants below
@@ -26,7 +26,9 @@ Name(c) == c[1] \o "." \o c[2] \o "." \o c[3] \o "." \o c[4] \o "." \o c[5] \o "
            \o "." \o (IF c[8] THEN "nocore" ELSE "core")
 D(f) == DOMAIN Class[f]
 ClassChoices == D("cpu") \X D("cpuHard") \X D("data") \X D("fsize") \X D("stack") \X D("as") \X D("nofile") \X BOOLEAN
-Records == { [rec |-> Rec(c), dev |-> Dev(c), name |-> Name(c)] : c \in ClassChoices }
+\* RecMaxDev bounds how many fields deviate from "unset" (records with every field set are always kept)
+Records == { [rec |-> Rec(c), dev |-> Dev(c), name |-> Name(c)] :
+               c \in { cc \in ClassChoices : Dev(cc) <= RecMaxDev \/ Dev(cc) = 8 } }
 
 \* verdict programs: [prog, arg, cpu, cpuHard, fsize, tl_us, ml_kib, calib]; runner is added by the check
 BigT == 1000000000     \* 1000 s
